@@ -6,28 +6,33 @@ PROP = "C12"
 LEVEL = "proof"
 RULE = ("random multifurcating trees (3..12 tips, rooted/unrooted, parent slot at random positions, inner names/comments "
         "sometimes), tip states over 1..4 states (plain and exotic state names to exercise sort.Strings, extra map entries "
-        "for absent tips, rarely a missing tip), algorithms downpass/deltran/acctran (+none for the correspondence), every "
+        "for absent tips, rarely a missing tip; 15%: duplicate inner names and inner names that look like node ids), 30% of the cases with --random-resolve and a recorded rand stream, algorithms downpass/deltran/acctran (+none for the correspondence), every "
         "case also run on the same tree re-rooted at a random inner node (the judge checks the second tree with "
         "Model.Reroot.reroot); sequence variant: alignments of 1..6 sites, unambiguous ACGT(-) in upper, lower or mixed case with the character variant "
         "run site by site, or with IUPAC ambiguity codes at tips; non-trivial = at least one step; distinct = distinct case text")
 TRUSTED = ["tree built through NewNode/NewEdge + verif hooks (exact neighbour order); dump through Neigh()/Edges()/Comments()",
            "alignment read by goalign's fasta parser from the text the worker writes (as cmd/asr.go does)"]
-ASSUMPTIONS = ["randomResolve=false only (the random resolution is not modelled)",
+ASSUMPTIONS = ["math/rand: Intn transcribed in Model/Rand.v; the recorded Int63 stream is what the code under test consumes "
+               "(random resolution: the model draws from that stream in the order of the code)",
                "float64 counts are small integers, represented as nat in the model",
                "nucleotide alphabet only for the sequence variant; characters of align.IupacCode in either case; other "
                "characters (X . ? *) get no state in asr.parsimonyUPPASS and are outside the property's quantifier: not generated",
                "site-by-site comparison: the character variant is given the upper-cased nucleotide as the state"]
-LEVEL_TEXT = ("Theorems (Properties/C12.v, 33 statements, closed) for all well-formed trees of any degree and all tip-state "
+LEVEL_TEXT = ("Theorems (Properties/C12.v, 45 statements, closed) for all well-formed trees of any degree and all tip-state "
               "assignments (single states or non-empty sets): the up-pass step count = the definitional minimum over all "
               "labellings (Hartigan); the minimum and the step count are invariant under Reroot; DOWNPASS reports at every "
               "inner node exactly the states of the most-parsimonious labellings; DELTRAN and ACCTRAN report only such states; "
               "an output unambiguous at every node is most parsimonious (three algorithms); tips are never altered "
               "(ACCTRAN: when tips are skipped or hold single states; the unconditional statement is refuted with the witness "
               "of the fixed defect); instantiated on ParsimonyAcr and per site on ParsimonyAsr; the passes commute with an "
-              "injective embedding of the alphabet, hence the sequence variant at an unambiguous site = the character variant")
+              "injective embedding of the alphabet, hence the sequence variant at an unambiguous site = the character variant; random resolution, for every source "
+              "of choices: steps unchanged, one state at every inner node, DOWNPASS/DELTRAN states stay in the plain DOWNPASS "
+              "set, ACCTRAN's labelling is most parsimonious; DOWNPASS/DELTRAN labelling optimality REFUTED with witnesses; "
+              "stateless tips (X . ? *) cost one step each; returned map: last inner node wins, keys unique")
 LEVEL_NOTE = ("The model is tied to acr/asr by the correspondence check (steps, every node comment, returned map); the oracle "
               "(Sankoff DP + brute force on small trees, extracted from Spec/Parsimony.v) judges Go's output directly. Random "
-              "resolution is not modelled.")
+              "resolution of the sequence variant (all sites of a node drawn before the next node) is modelled and checked by "
+              "correspondence; its theorems are stated on the one-character passes.")
 
 STATE_POOLS = [["A", "B", "C", "D"], ["A", "B", "C", "D"], ["0", "1", "2", "3"], ["b", "B", "10", "9"],
                ["x y", "X", "-", "ab"], ["T", "F", "N", "U"]]
@@ -57,6 +62,15 @@ def reroot_py(t, i):
         t = c
     return t
 
+def dup_inner_names(t, rng):
+    """give some inner nodes names from a small pool: duplicates, and names that look like node ids
+    (an unnamed node is keyed by its id in the returned map)"""
+    n = n_nodes(t)
+    pool = ["X", "X", "Y", "0", "1", "2", str(rng.randrange(n)), str(rng.randrange(n))]
+    for node in preorder(t):
+        if len(node["slots"]) >= 2 and rng.random() < 0.6:
+            node["name"] = rng.choice(pool)
+
 def inner_indexes(t):
     return [i for i, n in enumerate(preorder(t)) if len(n["slots"]) >= 2]
 
@@ -71,6 +85,9 @@ def gen(rng, tier):
                    supmode="mixed", inner_names=rng.random() < 0.3, comments=rng.random() < 0.2,
                    up_random=rng.random() < 0.5)
         tips = leaves(t)
+        dup = rng.random() < 0.15
+        if dup:
+            dup_inner_names(t, rng)
         pool = rng.choice(STATE_POOLS)
         k = rng.choice([1, 2, 2, 3, 3, 4])
         sts = pool[:k]
@@ -97,7 +114,12 @@ def gen(rng, tier):
         if t2 is not None and rng.random() < 0.8:
             case["tree2"] = T(t2)
             case["i"] = i
-        out.append({"sx": sx(case), "meta": {"kind": "acr", "algo": algo, "ntips": len(tips), "k": k,
+        rr = rng.random() < 0.3
+        if rr:
+            case["rr"] = True
+            case["seed"] = rng.randrange(1, 2**31)
+            case["nraw"] = 4 * n_nodes(t) + 16
+        out.append({"sx": sx(case), "meta": {"kind": "acr", "algo": algo, "ntips": len(tips), "k": k, "rr": rr, "dupnames": dup,
                                               "rooted": len(t["slots"]) == 2, "rerooted": "tree2" in case}})
     for _ in range(n_asr):
         t = g.tree(lo=3, hi=10, maxdeg=rng.choice([2, 3, 4, 5]), lenmode="mixed", supmode="mixed",
@@ -125,7 +147,12 @@ def gen(rng, tier):
         if rng.random() < 0.03:
             del aln[rng.randrange(len(aln))]
         algo = rng.choice(["downpass", "deltran", "acctran"])
-        case = {"kind": Sym("asr"), "tree": T(t), "aln": aln, "algo": Sym(algo), "sitewise": (not amb)}
-        out.append({"sx": sx(case), "meta": {"kind": "asr", "algo": algo, "ntips": len(tips), "sites": L,
+        rr = rng.random() < 0.3
+        case = {"kind": Sym("asr"), "tree": T(t), "aln": aln, "algo": Sym(algo), "sitewise": (not amb) and not rr}
+        if rr:
+            case["rr"] = True
+            case["seed"] = rng.randrange(1, 2**31)
+            case["nraw"] = 4 * n_nodes(t) * L + 16
+        out.append({"sx": sx(case), "meta": {"kind": "asr", "algo": algo, "ntips": len(tips), "sites": L, "rr": rr,
                                               "ambiguous": amb, "case": case_mode, "rooted": len(t["slots"]) == 2}})
     return out
